@@ -7,18 +7,29 @@ Stubs (installed in the loaded module's own namespace only; the class text is th
                        wakes every due sleeper (deadline <= now, in deadline order) whenever it advances the clock.
                        Because the advance is a symbolic amount, a sleeper is woken exactly at its deadline on some
                        paths and arbitrarily late on others (the "sleep lasts >= d" contract of asyncio.sleep).
-Schedule (all CrossHair-symbolic): count (1..2), window W (1..WMAX); per step s: dt_s >= 0 (advance the clock
-by dt_s), enter_s (a new entry task arrives at this instant; step 0 always has an arrival - idle steps before
-the first arrival only shift the clock, and dt_0 is symbolic), order_s (when an arrival and a wake-up of due
-sleepers coincide: does the new arrival run before or after the woken sleepers).  The loop is drained to
-quiescence after every step (time only moves between steps).
-Oracle, independent of the class's internals (only admission instants and sleep requests are observed):
+Schedule (all CrossHair-symbolic): count (1..3), window W (1..WMAX); per step s: dt_s >= 0 (advance the clock
+by dt_s), an action, order_s (when the action and a wake-up of due sleepers coincide: does the action come before or
+after the wake-up).  Step 0 always has an arrival - idle steps before the first arrival only shift the clock, and dt_0
+is symbolic.  Two families:
+  bodies end at once   action = enter_s: a new entry task arrives at this instant, or nothing
+  held bodies          an admitted entry stays in its `async with` body until the director lets it go; action a_s:
+                       0 nothing, 1 arrival, 2+2i entry i leaves its body (normally, or by raising BodyError when r_i;
+                       on an entry that is still waiting: it will leave as soon as it is admitted), 3+2i
+                       Task.cancel() of entry i - inside its body, sleeping in __aenter__, woken but not resumed
+                       (cancel after the wake-up of the same step) or not run yet (g_s false: the arrival of step s is
+                       not run before step s+1)
+The loop is drained to quiescence after every step (time only moves between steps), except after an arrival with
+g_s false.
+Oracle, independent of the class's internals (only admission instants and sleep requests are observed; an admission is
+the instant __aenter__ returned, whatever happens to the entry later - leaving, raising, cancellation):
   rate     for the sorted admission instants t_0 <= t_1 <= ...: t_{i+count} - t_i >= W for every i, i.e. no
            half-open window of length W contains more than `count` admissions
   asap     a task asks to sleep only when the window has no room at that instant (so an entry that finds room is
            admitted at that very instant), the requested sleep is positive and never reaches past the first
            instant at which room can exist (count-th latest admission + W)
-  live     once arrivals stop and the clock is advanced from deadline to deadline every entry is admitted
+  live     once the schedule is over and the clock is advanced from deadline to deadline every entry that was never
+           cancelled is admitted - with every admitted entry still inside its body; entries cancelled before they
+           were admitted are not admissions and need not be admitted
 """
 import asyncio
 
